@@ -62,12 +62,24 @@ CMDS = [  # (name, letter, signed?, call(g, v))
     ("halt_S", "S", True, lambda g, v: g.halt("wait-for-bed", S=v)),
     ("sleep", "P", False, lambda g, v: g.sleep(v)),
     ("move_I", "I", True, lambda g, v: g.move(x=1, I=v)),
+    # added after seed C08b (set_fan_speed rounded its S word): every remaining builder call that writes a number
+    ("set_fan_speed", "S", False, lambda g, v: g.set_fan_speed(v)),
+    ("set_fan_speed_n", "S", False, lambda g, v: g.set_fan_speed(v, 2)),
+    ("set_chamber_temperature", "S", True, lambda g, v: g.set_chamber_temperature(v)),
+    ("halt_hotend_S", "S", True, lambda g, v: g.halt("wait-for-hotend", S=v)),
+    ("halt_chamber_S", "S", True, lambda g, v: g.halt("wait-for-chamber", S=v)),
+    ("probe_F", "F", False, lambda g, v: g.probe("away", z=1, F=v)),
+    ("auto_home_y", "Y", True, lambda g, v: g.auto_home(y=v)),
+    ("rapid_abs_z", "Z", True, lambda g, v: g.rapid_absolute(z=v)),
+    ("set_axis_E", "E", True, lambda g, v: g.set_axis(E=v)),
+    ("move_S", "S", False, lambda g, v: g.move(x=1, S=v)),
+    ("rapid_J", "J", True, lambda g, v: g.rapid(y=2, J=v)),
 ]
 
 
 def values(rng, signed, n):
     out = [0.0, -0.0, 1e15 if signed else 1e15, 5e-324, 2.2250738585072014e-308, 0.5, 0.05, 0.005, 0.0005, 0.00005, 5e-06, 0.125, 0.375,
-           2.5, 1.5, 0.15, 0.25, 0.35, 1.005, 2.675, 9.995, 99.9995, 999999.9999995, 1, 7, 10 ** 15, np.float32(0.1), np.float64(1e-7),
+           2.5, 1.5, 127.5, 254.9995, 200.125, 0.15, 0.25, 0.35, 1.005, 2.675, 9.995, 99.9995, 999999.9999995, 1, 7, 10 ** 15, np.float32(0.1), np.float64(1e-7),
            np.int64(42), 123456789.123456789, 1e-10, 0.1 + 0.2, 1 / 3, 2 / 3, 1e22 if False else 1e14 + 0.5]
     for _ in range(n):
         mag = rng.uniform(-12, 15)
